@@ -8,12 +8,13 @@ CONFIG = ledger_config("C05", ["Sky/Props/C05.lean"], dict(
          "65535 entries; block time is later than the head's (created_block_facts, created_txns_balanced); the transaction list is sorted "
          "by fee per kB descending with ties by lowest hash (created_sorted) and no two included transactions share an input "
          "(created_no_conflict); the created block passes every check of Blockchain.processBlock on an independent non-arbitrating node "
-         "holding the same chain (created_block_passes_processBlock, from completeness of the non-arbitrating loops). The correspondence "
+         "holding the same chain and is then executed by it - no storage step can fail in a state histories reach "
+         "(created_block_passes_processBlock, created_block_executed). The correspondence "
          "decides the rest on the code: the Lean model must produce exactly the block the real publisher produced, every produced block is "
          "executed on a separate real follower node (a rejection is reported as a violation), and the conflict clause (a left-out "
          "pending transaction has an included or earlier rival) is evaluated on every block the real publisher makes (known finding F36: "
          "conflict chains).",
-    note="partial: the storage steps after processBlock on the follower (unspent-set update, history) are tied differentially; the full "
+    note="partial: the full "
          "conflict clause is false of the code in conflict chains (F36). Pools reach 1-16 pending transactions with conflicts, soft- and "
          "hard-invalid entries and block-size truncation.",
     technique="Lean 4 proof over ledger model (facts of created blocks, sortedness, completeness of the follower's checks) + differential correspondence (publisher vs model, follower acceptance)",
